@@ -499,4 +499,12 @@ def rule_j(ctx: Ctx) -> None:
     ctx.explain('C15.j: reaching definitions - no `for` header is among the definitions of a variable whose .type / .alternatives is compared in is_consistent.')
 
 
-RULES = [rule_a, rule_b, rule_c, rule_d, rule_e, rule_f, rule_g, rule_h, rule_i, rule_j]
+def rule_k(ctx: Ctx) -> None:
+    """Two wildcards compete (Unique Particle Attribution) exactly when the namespace sets they denote share a namespace: the overlap test of
+    XsdAnyElement against another wildcard, folded per pair of constraint kinds, must state that intersection - C16.d body.  `##other` against a list
+    overlaps when the list names *some* namespace outside {absent, target}, not only when it names none of the excluded ones."""
+    from .c16 import rule_d as wildcard_overlap_table
+    wildcard_overlap_table(ctx, 'C15.k')
+
+
+RULES = [rule_a, rule_b, rule_c, rule_d, rule_e, rule_f, rule_g, rule_h, rule_i, rule_j, rule_k]
